@@ -162,6 +162,12 @@ func main() {
 	if *tier == "thorough" {
 		cfg.timeoutS, cfg.agree = 60, 2
 	}
+	cfg.known = map[string]bool{}
+	for _, kf := range readKnown(filepath.Join(*verif, "known_findings.json")) {
+		if kf.Status == "known" {
+			cfg.known[kf.Obligation] = true
+		}
+	}
 	ts := time.Now()
 	solveAll(obls, cfg)
 	solveS := time.Since(ts).Seconds()
@@ -401,7 +407,7 @@ func readKnown(path string) []knownFinding {
 func findKnown(known []knownFinding, prop, key string) *knownFinding {
 	for i := range known {
 		k := &known[i]
-		if k.Status == "known" && k.Obligation == key && (k.Property == prop || prop == "safety" || prop == "all") {
+		if k.Status == "known" && k.Obligation == key && (containsProp(k.Property, prop) || prop == "safety" || prop == "all") {
 			return k
 		}
 	}
@@ -560,4 +566,13 @@ func writeEvidence(verif, prop, tier string, e *Engine, keys []string, reports [
 	os.MkdirAll(filepath.Join(verif, "evidence"), 0o755)
 	data, _ := json.MarshalIndent(ev, "", " ")
 	os.WriteFile(filepath.Join(verif, "evidence", prop+".json"), append(data, '\n'), 0o644)
+}
+
+func containsProp(list, p string) bool {
+	for _, x := range strings.Split(list, ",") {
+		if strings.TrimSpace(x) == p {
+			return true
+		}
+	}
+	return false
 }
